@@ -557,7 +557,7 @@ func init() {
 		At       int    `json:"stop_at_probe"` // Stop is started when the loop is about to hand out this probe of a tick
 		Round    int    `json:"round"`
 	}
-	vh.AddPart("C12", "stop-during-fanout", "race", vh.Opts{Procs: 8, TimeoutS: 300},
+	vh.AddPart("C12", "stop-during-fanout", "race", vh.Opts{Shards: 5, Procs: 4, TimeoutS: 300},
 		func(e *vh.Env) []c12Stop {
 			var cs []c12Stop
 			for i, st := range allStrategies {
